@@ -231,13 +231,22 @@ def h1(v){r1}:
     return w
 
 
-def h2(v){r2}:
-    w = v + 2
-    return w
+def _mk():
+    k = 2
+
+    def h2(v){r2}:
+        w = v + k
+        return w
+
+    return h2
 
 
-def h3(v){r3}:
-    w = v + 3
+h2 = _mk()
+
+
+def h3(v, *, d=3){r3}:
+    """doc"""
+    w = v + d
     return w
 '''
 
